@@ -6,6 +6,9 @@ ALL = ["C%02d" % i for i in range(1, 21)]
 
 # property -> (technique, decided clauses (short), not decided / assumptions)
 CLAIMED = {
+ "C04": ("constant tables, sibling-shape comparison of the eight handler closures, phi-origin/dominance analysis of the caller-visible status, per-protocol reach-sets (go/ssa)",
+         "C04.1 code table and sentinel construction; C04.2 error reply sets status and clears body+codec before the write; C04.3 handler closures plumb status/body uniformly; C04.4 caller's status = wire status, else recorded read/decode error, else hook verdict, never overwriting an earlier veto; C04.6 every Proto implementation reads and decodes the status (websocket sub-protocols: known finding F4); C04.7 panic -> 500; C04.8 refusal -> 102 sentinel; C04.9 Status(true) allocates",
+         "value fidelity of the status encodings (code/msg/cause bytes through query/JSON escaping); user handlers"),
  "C10": ("guarded-insert (value identity + dominance + no-return), field access sets per namespace, return-shape analysis (go/ssa)",
          "C10.1 table insert guarded by the lookup of the same handler's name in the same pass; conflict edge is fatal; C10.2 CALL/PUSH separation end to end (reg table choice, registration entries with their makers, getCall/getPush access sets, session wiring, bindCall/bindPush); C10.3 exact-match / unknown / not-found return shape; C10.4 returned names are the inserted keys",
          "the (prefix, identifier) -> name mapping table and its determinism (value-level: only executing the mapper could compare it with the documented table); reflection-based signature checks of the makers"),
